@@ -90,10 +90,51 @@ func checkC08(p *Program, r *Report) {
 
 	// R1 + R2: every store to the err cell
 	nStores := 0
+	// roots: the functions that allocate the record of an invocation; and helpers that only they call on that record (the shared
+	// exit sequence of an invocation: run the statement, run the deferred calls, clear the return marker)
+	rootLike := map[*ssa.Function]bool{}
+	for _, fn := range m.funcsOnRecord() {
+		if _, isParam := m.baseOf(fn).(*ssa.Parameter); !isParam {
+			rootLike[fn] = true
+		}
+	}
+	for changed := true; changed; {
+		changed = false
+		for _, fn := range m.funcsOnRecord() {
+			if rootLike[fn] || fn.Parent() != nil {
+				continue
+			}
+			calls, all := 0, true
+			for _, caller := range m.fns {
+				for _, b := range caller.Blocks {
+					for _, in := range b.Instrs {
+						if c, ok := in.(*ssa.Call); ok && staticCallee(c) == fn {
+							calls++
+							if !rootLike[caller] {
+								all = false
+							}
+						}
+						for _, op := range in.Operands(nil) {
+							if *op == ssa.Value(fn) {
+								if c, ok := in.(*ssa.Call); !ok || c.Call.Value != ssa.Value(fn) {
+									all = false // the function is used as a value
+								}
+							}
+						}
+					}
+				}
+			}
+			if calls > 0 && all && fn != m.evalStmt && fn != m.evalExpr && fn != m.evalLet && fn != m.evalOp {
+				rootLike[fn] = true
+				changed = true
+			}
+		}
+	}
 	isRoot := func(fn *ssa.Function) bool {
 		_, isParam := m.baseOf(fn).(*ssa.Parameter)
 		return !isParam
 	}
+	isRootLike := func(fn *ssa.Function) bool { return rootLike[fn] }
 	isDefersRunner := func(fn *ssa.Function) bool { return m.storesNilToDefers(fn) }
 	isRecover := func(fn *ssa.Function) bool {
 		for _, b := range fn.Blocks {
@@ -171,7 +212,7 @@ func checkC08(p *Program, r *Report) {
 					r.Check(inLoop, "C08.R2", inst+"|consumes break/continue", site, "break/continue consumed by the loop they belong to", "a pending "+ea.bitName(lost&(bBreak|bCont))+" is overwritten outside any loop handler: break/continue does not reach the innermost enclosing loop")
 				}
 				if lost&bRet != 0 {
-					r.Check(isRoot(fn) || isDefersRunner(fn), "C08.R2", inst+"|consumes return", site, "return consumed at the invocation boundary", "a pending ErrReturn is overwritten inside a block construct: return does not end the function invocation")
+					r.Check(isRootLike(fn) || isDefersRunner(fn), "C08.R2", inst+"|consumes return", site, "return consumed at the invocation boundary", "a pending ErrReturn is overwritten inside a block construct: return does not end the function invocation")
 				}
 			}
 		}
